@@ -181,6 +181,7 @@ func (m *model) render() string {
 	for i := range ns {
 		ns[i] += ":ok"
 	}
+	sort.Strings(ns) // same order as sim.observe, which sorts the decorated strings
 	c := m.clone()
 	n1 := c.generate()
 	n2 := c.generate()
